@@ -25,28 +25,39 @@ def merge_opt_iff_Statement : Prop :=
 def cEx : LitCfg := ⟨10, 50⟩
 def eEx : EqEnv := ⟨StrOracle.default, fun i => "Model#" ++ i, fun _ => none, 5⟩
 
-/-- **Negative witness A** (generator.py:155, `field_original == field.type → continue`):
-    `[{"a": int}, {"a": Optional[int]}]` merges to `{"a": int}` — the optional is dropped. -/
-theorem witnessA : mergeFieldSets cEx eEx [[("a", .int)], [("a", .opt .int)]] = .ok [("a", .int)] := by rfl
+/-- comparison environment with one level of `==` (enough when the top-level classes differ; keeps `simp` cheap) -/
+def eEx1 : EqEnv := ⟨StrOracle.default, fun i => "Model#" ++ i, fun _ => none, 1⟩
 
-/-- … while the other order keeps it: the result depends on the order of the sets. -/
-theorem witnessA_rev :
-    mergeFieldSets cEx eEx [[("a", .opt .int)], [("a", .int)]] = .ok [("a", .opt .int)] := by rfl
+/-- **NEW behaviour** (repaired generator.py:155; this was "negative witness A": the merge used to be
+    `{"a": int}` — the optional was dropped): `[{"a": int}, {"a": Optional[int]}]` merges to
+    `{"a": Optional[int]}` … -/
+example : mergeFieldSets cEx eEx [[("a", .int)], [("a", .opt .int)]] = .ok [("a", .opt .int)] := by rfl
 
-/-- **Negative witness B**: original `int`, incoming `Optional[str]` — the optional becomes a *member*
-    of the union instead of wrapping it; the merged field is not `DOptional`.
+/-- … and so does the other order. -/
+example : mergeFieldSets cEx eEx [[("a", .opt .int)], [("a", .int)]] = .ok [("a", .opt .int)] := by rfl
+
+/-- **Negative witness B** (still there after the repair): original `int`, incoming `Optional[str]` — the
+    optional becomes a *member* of the union instead of wrapping it; the merged field is not `DOptional`.
     (`optimize_type` later repairs this one: `_optimize_union` moves the member's `Null` outwards.) -/
 theorem witnessB :
-    mergeFieldSets cEx eEx [[("a", .int)], [("a", .opt .str)]] = .ok [("a", .union [.opt .str, .int])] := by
+    mergeFieldSets cEx eEx1 [[("a", .int)], [("a", .opt .str)]] = .ok [("a", .union [.opt .str, .int])] := by
   simp [mergeFieldSets, mergeFieldSets.go, mergeStep, mergeOne, Fields.get?, Fields.set, Fields.keys,
-    Fields.has, Ty.isOpt, EqEnv.eq, eEx, pyEq, bind, Except.bind, pure, Except.pure, Ty.unionMembers,
+    Fields.has, Ty.isOpt, EqEnv.eq, eEx1, pyEq, bind, Except.bind, pure, Except.pure, Ty.unionMembers,
     mkUnionMembers, flattenUnion, handleType, hashStr, Ty.isStr]
 
-/-- **C02.1 is false as stated** (direction "optional somewhere ⇒ optional in the merge"). -/
+/-- … while the other order wraps the union: whether the field is a `DOptional` depends on the order. -/
+theorem witnessB_rev :
+    mergeFieldSets cEx eEx1 [[("a", .opt .str)], [("a", .int)]] = .ok [("a", .opt (.union [.int, .str]))] := by
+  simp [mergeFieldSets, mergeFieldSets.go, mergeStep, mergeOne, Fields.get?, Fields.set, Fields.keys,
+    Fields.has, Ty.isOpt, EqEnv.eq, eEx1, pyEq, bind, Except.bind, pure, Except.pure, Ty.unionMembers,
+    mkUnionMembers, flattenUnion, handleType, hashStr, Ty.isStr]
+
+/-- **C02.1 is still false as stated** (direction "optional somewhere ⇒ optional in the merge"), by
+    witness B; the lax form (`merge_hasOpt_iff`, "optional-like" instead of "optional") is true. -/
 theorem merge_opt_iff_false : ¬ merge_opt_iff_Statement := by
   intro h
-  have := (h cEx eEx _ _ witnessA "a" .int (by simp)).2
-    (.inl ⟨[("a", .opt .int)], by simp, .opt .int, by simp, rfl⟩)
+  have := (h cEx eEx1 _ _ witnessB "a" (.union [.opt .str, .int]) (by simp)).2
+    (.inl ⟨[("a", .opt .str)], by simp, .opt .str, by simp, rfl⟩)
   simp [Ty.isOpt] at this
 
 /-- **Negative witness C** for the other direction when a union *member* is optional (not produced by
@@ -74,7 +85,7 @@ theorem merge_opt_only_if {c : LitCfg} {e : EqEnv} {sets : List Fields} {fields 
 
 /-- **`merge_opt_iff_partial`** — the iff on opt-free sets (what `generate` and `_optimize_union` pass
     at the generator stage): optional ⇔ absent from some set.
-    Excluded: incoming sets that already contain `DOptional` (witnesses A, B, C). -/
+    Excluded: incoming sets that already contain `DOptional` (witnesses B, C). -/
 theorem merge_opt_iff_partial {c : LitCfg} {e : EqEnv} {sets : List Fields} {fields : Fields}
     (h : mergeFieldSets c e sets = .ok fields) (hf : OptFree sets) {k : String} {t : Ty}
     (hm : (k, t) ∈ fields) :
